@@ -883,6 +883,70 @@ def part_b(run):
     run.extra['hash_seed_runs'] = nseed
 
 
+def part_c(run):
+    """O6 on cycles with several break points: one cycle of 2-4 cells, each of which may break it (its back edge stands in a
+    lazy branch), with guard values that select the back edge in some cells and not in others.  Which cell is cut must not
+    depend on PYTHONHASHSEED (nor on the order of the cells): the same batch of workbooks is calculated in 6 sub-processes
+    with different hash seeds and in this process in a permuted cell order, and all answers must coincide."""
+    rnd = run.rng
+    quick = run.tier == 'quick'
+    P = "'[b1.xlsx]S1'!"
+    batch, cases = [], []
+    for k in range(40 if quick else 600):
+        n = rnd.randint(2, 4)
+        names = ['A%d' % (i + 1) for i in range(n)]
+        gv = [rnd.choice([True, False]) for _ in range(n)]
+        if all(gv) or not any(gv):
+            gv[rnd.randrange(n)] = not gv[0]
+        d = {}
+        for i, a in enumerate(names):
+            nxt = names[(i + 1) % n]
+            g = 'B%d' % (i + 1)
+            d[P + g] = gv[i]
+            form = rnd.choice(['IF(%s,%s,%d)', 'IF(%s,%s+0,%d)', 'IFERROR(IF(%s,%s,%d),0)'])
+            d[P + a] = '=' + form % (P + g, P + nxt, i + 1)
+        d[P + 'D1'] = '=%sA1+10' % P
+        d[P + 'D2'] = '=SUM(%sA1:A%d)' % (P, n) if rnd.random() < 0.3 else '=%sA%d*2' % (P, n)
+        keys = [x for x in d if not x.endswith(tuple('B%d' % (i + 1) for i in range(n)))]
+        batch.append({'dict': d, 'keys': keys, 'circular': True})
+        cases.append({'workbook': d, 'stream': 'multi-guard-cycle'})
+        run.count(1, json.dumps(d, sort_keys=True), True, 'multi-guard-cycle/cells=%d' % n)
+    answers = {}
+    for hs in ('0', '1', '4', '5', '7', '777'):
+        env = dict(os.environ, PYTHONHASHSEED=hs, VERIF_REPO=common.REPO)
+        try:
+            p = subprocess.run(['/venv/bin/python', os.path.join(common.VERIF, 'harness', 'sub_calc.py')], input=json.dumps({'batch': batch}),
+                               capture_output=True, text=True, env=env, timeout=900)
+        except subprocess.TimeoutExpired:
+            run.violation('calculation of the multi-guard batch under PYTHONHASHSEED=%s does not terminate' % hs, cases[0]); continue
+        if p.returncode != 0:
+            run.violation('calculation under PYTHONHASHSEED=%s failed: %s' % (hs, p.stderr[-200:]), cases[0]); continue
+        answers[hs] = json.loads(p.stdout)
+    # this process, cells in a permuted order
+    perm = []
+    for b in batch:
+        items = list(b['dict'].items()); rnd.shuffle(items)
+        try:
+            m = bookrun.ExcelModel().from_dict(dict(items)); m.finish(complete=False, circular=True)
+            sol = m.calculate()
+            perm.append({k_: [[bookrun.wire_impl(x) for x in row] for row in np.asarray(sol[k_].value, object).tolist()] for k_ in b['keys']})
+        except Exception as ex:
+            perm.append({'raised': type(ex).__name__})
+    answers['this process, permuted cell order'] = perm
+    ref = sorted(answers)[0] if answers else None
+    for i, case in enumerate(cases):
+        base = answers[ref][i]
+        if 'raised' in base:
+            run.violation('calculation raised %s' % base['raised'], case); continue
+        for hs, res in answers.items():
+            if res[i] != base:
+                kk = [x for x in base if res[i].get(x) != base[x]] or ['?']
+                run.violation('cell %s is %s under PYTHONHASHSEED=%s and %s under %s' % (
+                    kk[0], res[i].get(kk[0]), ref, base.get(kk[0]), hs), dict(case, cell=kk[0], hashseed=hs))
+                break
+    run.extra['multi_guard_hash_seeds'] = sorted(answers)
+
+
 def witness(run):
     """known finding: a guarded range that contains a cell of another cycle"""
     P = "'[b1.xlsx]S1'!"
@@ -906,6 +970,7 @@ def check(run):
     bookrun.setup()
     part_a(run)
     part_b(run)
+    part_c(run)
     witness(run)
     run.extra['trusted_base'] = [
         'the decision procedure of solve_circular (which cycle is cut where) is not modelled: the cuts and marks are read off the '
